@@ -1,8 +1,6 @@
 package checker
 
 import (
-	"sort"
-
 	"github.com/jsightapi/jsight-schema-core/bytes"
 	"github.com/jsightapi/jsight-schema-core/errs"
 	"github.com/jsightapi/jsight-schema-core/json"
@@ -39,12 +37,7 @@ func CheckRootSchema(rootSchema *ischema.ISchema) {
 	// Check the types in the order of their names: with several broken types
 	// the one that gets reported must not depend on map iteration order.
 	types := rootSchema.TypesList()
-	names := make([]string, 0, len(types))
-	for name := range types {
-		names = append(names, name)
-	}
-	sort.Strings(names)
-	for _, name := range names {
+	for _, name := range rootSchema.TypeNames() {
 		c.checkType(name, types[name], types)
 	}
 }
